@@ -45,11 +45,15 @@ class Report:
         return ok
 
     def floor(self, rule, what, count, minimum):
-        self.floors.append({"rule": rule, "what": what, "count": count, "floor": minimum,
+        # `minimum` is the number of instances counted by hand on the pinned tree; it is recorded in
+        # the evidence.  The check fails closed only when a rule would pass *vacuously* (no instance
+        # at all although the pinned tree had some): a refactoring may legitimately merge or split
+        # instances, so a smaller non-zero count is not an infrastructure failure.
+        self.floors.append({"rule": rule, "what": what, "count": count, "pinned_count": minimum,
                             "config": self.config})
-        if count < minimum:
-            self.floor_fail.append("%s: %s = %d below the floor %d counted on the pinned tree (%s)"
-                                   % (rule, what, count, minimum, self.config))
+        if minimum >= 1 and count < 1:
+            self.floor_fail.append("%s: %s = 0 (the pinned tree had %d): the rule would pass vacuously (%s)"
+                                   % (rule, what, minimum, self.config))
 
     def info(self, msg):
         if msg not in self.infos:
